@@ -18,8 +18,11 @@ def _build(job):
     out = []
     for i, (items, (lab, f)) in enumerate(zip(sessions, filters)):
         mode = "w" if (i == 0 and base is None) else "a"
+        # a session whose chain has no AES coder is a plain session inside a history that otherwise uses the password
+        pw_i = password if lab.endswith("+AES") else None
+        hdr_i = header if (pw_i is not None or header != "encrypted") else "encoded"
         try:
-            histories.run_session(buf, mode, items, tmp, filters=f, password=password, header=header)
+            histories.run_session(buf, mode, items, tmp, filters=f, password=pw_i, header=hdr_i)
         except Exception as e:  # noqa
             out.append(("exc", "%s: %s" % (type(e).__name__, str(e)[:200])))
             break
@@ -92,7 +95,16 @@ def run(ctx, prefix, n_hist, tmp, *, max_sessions=3, bases=None, check_py7zr=Tru
         password = rng.choice([None, None, "pässwörd"])
         header = rng.choice(["raw", "encoded", "encoded", "encrypted"]) if password else rng.choice(["raw", "encoded", "encoded"])
         if password:
-            filters = [(lab + "+AES", arclib.with_aes(f)) for lab, f in filters]
+            # sessions may differ in whether they encrypt: plain base + encrypted append, encrypted base + plain append, ...
+            mixed = k > 1 and rng.random() < 0.5
+            enc = [True] * k
+            if mixed:
+                enc = [rng.random() < 0.5 for _ in range(k)]
+                if not any(enc):
+                    enc[rng.randrange(k)] = True
+                if not all(enc) and header == "encrypted":
+                    header = "encoded"       # a plain session could not reopen an archive whose header is encrypted
+            filters = [((lab + "+AES", arclib.with_aes(f)) if e else (lab, f)) for (lab, f), e in zip(filters, enc)]
         base = None
         base_members = []
         bname = None
@@ -102,7 +114,7 @@ def run(ctx, prefix, n_hist, tmp, *, max_sessions=3, bases=None, check_py7zr=Tru
             if bpw is None or bpw == password or password is None:
                 base, base_members = bdata, bmembers
                 password = bpw if bpw else password
-                if bpw and not filters[0][0].endswith("+AES"):
+                if bpw and not any(lab.endswith("+AES") for lab, _ in filters):
                     filters = [(lab + "+AES", arclib.with_aes(f)) for lab, f in filters]
         jobs.append((sessions, filters, password, header, tmp, base))
         metas.append((base_members, bname if base else None))
